@@ -514,6 +514,11 @@ func (fc *funcContext) translateExpr(expr ast.Expr) *expression {
 			return fc.translateExpr(e)
 		case *types.Array:
 			pattern := rangeCheck("%1e[%2f]", fc.pkgCtx.Types[e.Index].Value != nil, true)
+			if _, isDeref := astutil.RemoveParens(e.X).(*ast.StarExpr); isDeref {
+				// Indexing through a nil pointer to an array must panic (the
+				// attribute getter of the nil pointer value throws).
+				pattern = "(%1e.nilCheck, " + pattern + ")"
+			}
 			return fc.formatExpr(pattern, e.X, e.Index)
 		case *types.Slice:
 			return fc.formatExpr(rangeCheck("%1e.$array[%1e.$offset + %2f]", fc.pkgCtx.Types[e.Index].Value != nil, false), e.X, e.Index)
@@ -1359,8 +1364,11 @@ func (fc *funcContext) isTemporaryValue(expr ast.Expr) bool {
 
 func (fc *funcContext) translateConversionToSlice(expr ast.Expr, desiredType types.Type) *expression {
 	switch fc.typeOf(expr).Underlying().(type) {
-	case *types.Array, *types.Pointer:
+	case *types.Array:
 		return fc.formatExpr("new %s(%e)", fc.typeName(desiredType), expr)
+	case *types.Pointer:
+		// Slicing a nil pointer to an array must panic.
+		return fc.formatExpr("new %1s((%2e.nilCheck, %2e))", fc.typeName(desiredType), expr)
 	}
 	return fc.translateExpr(expr)
 }
